@@ -12,6 +12,7 @@ pub const ENO_BASE: u64 = 3_300_000;
 pub const MDIM_BASE: u64 = 3_400_000;
 pub const STDLIB_BASE: u64 = 3_500_000;
 pub const DEBUG_BASE: u64 = 3_600_000;
+pub const AOFF_BASE: u64 = 3_700_000;
 
 // ------------------------------------------------------------------------------------------
 // Stream 3: the execution budget — "each scan cycle terminates"
@@ -849,5 +850,107 @@ pub fn emit_debug_case(out: &mut Out, seed: u64, n: u64) {
     if any_ok {
         out.line("tag nontrivial");
     }
+    out.line("end");
+}
+
+// ------------------------------------------------------------------------------------------
+// `array_offset` against its Lean model (Model/StArray.lean)
+// ------------------------------------------------------------------------------------------
+
+/// Where does element `[subs]` of `ARRAY[dims] OF DINT` live?  A marker is written through
+/// variable subscripts and looked up in the array value.
+fn observe_offset(dims: &[(i64, i64)], subs: &[i64]) -> String {
+    use trust_runtime::value::Value;
+    let dim_src: Vec<String> = dims.iter().map(|(l, u)| format!("{l}..{u}")).collect();
+    let mut src = format!("PROGRAM P\nVAR\n  m : ARRAY[{}] OF DINT;\n", dim_src.join(", "));
+    for (d, s) in subs.iter().enumerate() {
+        let _ = writeln!(src, "  i{d} : LINT := LINT#{s};");
+    }
+    let ix: Vec<String> = (0..subs.len()).map(|d| format!("i{d}")).collect();
+    let _ = write!(src, "END_VAR\nm[{}] := DINT#77;\nEND_PROGRAM\n", ix.join(", "));
+    let compiled = std::panic::catch_unwind(|| TestHarness::from_source(&src));
+    let mut h = match compiled {
+        Ok(Ok(h)) => h,
+        Ok(Err(e)) => return format!("Rejected:{}", e.to_string().split_whitespace().next().unwrap_or("")),
+        Err(_) => return "compile-panic".to_string(),
+    };
+    let r = match std::panic::catch_unwind(std::panic::AssertUnwindSafe(|| h.cycle())) {
+        Ok(r) => r,
+        Err(_) => return "panic".to_string(),
+    };
+    if let Some(e) = r.errors.first() {
+        let s = format!("{e:?}");
+        let head: String = s.chars().take_while(|c| c.is_alphanumeric()).collect();
+        // `IndexOutOfBounds { index: 2, lower: 0, upper: 1 }` -> IndexOutOfBounds:2:0:1
+        let nums: Vec<String> = s
+            .split(|c: char| !(c.is_ascii_digit() || c == '-'))
+            .filter(|t| !t.is_empty() && t.chars().any(|c| c.is_ascii_digit()))
+            .map(|t| t.to_string())
+            .collect();
+        return if nums.is_empty() { head } else { format!("{head}:{}", nums.join(":")) };
+    }
+    let storage = h.runtime().storage();
+    if let Some(Value::Instance(id)) = storage.get_global("P") {
+        if let Some(Value::Array(arr)) = storage.get_instance_var(*id, "m") {
+            let hits: Vec<usize> = arr
+                .elements
+                .iter()
+                .enumerate()
+                .filter(|(_, v)| matches!(v, Value::DInt(77)))
+                .map(|(i, _)| i)
+                .collect();
+            return match hits.as_slice() {
+                [one] => format!("ok {one}"),
+                [] => "marker-lost".to_string(),
+                _ => "marker-duplicated".to_string(),
+            };
+        }
+    }
+    "no-array".to_string()
+}
+
+pub fn emit_aoff_case(out: &mut Out, seed: u64, n: u64) {
+    let mut rng = Rng::for_case(seed, n);
+    let nd = 1 + rng.below(3) as usize;
+    let dims: Vec<(i64, i64)> = (0..nd)
+        .map(|_| {
+            let lo = rng.range(-3, 3);
+            (lo, lo + rng.range(0, 4))
+        })
+        .collect();
+    out.line(format!("case {n}"));
+    out.line("tag stream-aoff");
+    for q in 0..4 {
+        // corners, interior points, and — every fourth query — one subscript just outside its own
+        // dimension (inside a neighbouring one where the shapes allow it)
+        let mut subs: Vec<i64> = dims
+            .iter()
+            .map(|(l, u)| match rng.below(3) {
+                0 => *l,
+                1 => *u,
+                _ => rng.range(*l, *u),
+            })
+            .collect();
+        if q == 3 || rng.chance(1, 6) {
+            let d = rng.below(nd as u64) as usize;
+            subs[d] = if rng.bool() { dims[d].1 + 1 + rng.range(0, 2) } else { dims[d].0 - 1 - rng.range(0, 2) };
+            if rng.chance(1, 3) && nd > 1 {
+                let e = (d + 1) % nd;
+                subs[e] = if rng.bool() { dims[e].1 + 1 } else { dims[e].0 - 1 };
+            }
+        }
+        let mut line = format!("aoff {nd}");
+        for (l, u) in &dims {
+            let _ = write!(line, " {l} {u}");
+        }
+        for s in &subs {
+            let _ = write!(line, " {s}");
+        }
+        out.line(line);
+        let obs = observe_offset(&dims, &subs);
+        out.count(&format!("aoff-{}", obs.split([' ', ':']).next().unwrap_or("")));
+        out.line(format!("impl {obs}"));
+    }
+    out.line("tag nontrivial");
     out.line("end");
 }
